@@ -2,6 +2,7 @@
 //! records executions of the real API for validation by TLC (impl -> spec).
 mod c01;
 mod c02;
+mod c03;
 mod c04;
 mod c08;
 mod c10;
@@ -24,6 +25,8 @@ fn main() {
         ("record", "c01") => c01::record(rest),
         ("replay", "c02") => c02::replay(rest),
         ("kat", "c02") => c02::kat(rest),
+        ("replay", "c03") => c03::replay(rest),
+        ("size", "c05") => c03::size(rest),
         ("replay", "c04") => c04::replay(rest),
         ("record", "c04") => c04::record(rest),
         ("replay", "c08") => c08::replay(rest),
